@@ -140,7 +140,7 @@ def lhs(nsamples, pmin, pmax):
     pmin = np.atleast_1d(pmin).astype(np.float64)
     nparams = pmin.shape[0]
 
-    pmax = np.atleast_1d(pmax)
+    pmax = np.atleast_1d(pmax).astype(np.float64)
     if pmax.shape[0] == 1:
         pmax = np.repeat(pmax, nparams)
 
